@@ -208,7 +208,78 @@ struct Task {
     p: TraceParams,
 }
 
+/// Run one configuration over a silent network and check every datagram it put on the wire.
+fn run_task(cell: &Cell, p: &TraceParams) -> (drive::RunOutcome, Vec<(String, String)>, u64) {
+    let min = if cell.v6 { 48u16 } else { 28 };
+    let illegal = cell.proto != Proto::Tcp && !(min..=1024).contains(&p.packet_size) || p.packet_size > 1024;
+    let topo = drive::topo_linear(cell, 1, Target::Silent);
+    let net = drive::net_cfg(cell, p, topo, Menu::default());
+    let o = drive::run_trace(cell, p, net, Chooser::new(&[], 0));
+    let mut local: Vec<(String, String)> = vec![];
+    let mut n = 0u64;
+    if let Some(pn) = &o.panic {
+        local.push((pn.key(), format!("{} at {}:{}", pn.message, pn.file, pn.line)));
+    } else if illegal {
+        match &o.result {
+            Err(e) if e.contains("InvalidPacketSize") => {}
+            other => local.push(("illegal-size-not-refused".into(), format!("packet size {} gave {other:?}", p.packet_size))),
+        }
+        if !o.world.sent.is_empty() {
+            local.push(("illegal-size-sent".into(), format!("packet size {}: {} datagrams were sent", p.packet_size, o.world.sent.len())));
+        }
+        n += 1;
+    } else {
+        if let Err(e) = &o.result {
+            local.push(("run-error".into(), e.clone()));
+        }
+        for (r, publ) in o.world.publishes.iter().enumerate() {
+            let sent: Vec<&SentRec> = o.world.sent.iter().filter(|s| s.round == r).collect();
+            if sent.len() != publ.probes.len() {
+                local.push(("slot-count".into(), format!("round {r}: {} datagrams, {} slots", sent.len(), publ.probes.len())));
+                continue;
+            }
+            for (s, slot) in sent.iter().zip(&publ.probes) {
+                n += 1;
+                match probe_of(slot) {
+                    Some(probe) => local.extend(check_datagram(cell, p, s, probe, r)),
+                    None => local.push(("slot-not-awaited".into(), format!("{slot:?}"))),
+                }
+            }
+        }
+        if o.world.publishes.len() != p.rounds {
+            local.push(("round-count".into(), format!("{}", o.world.publishes.len())));
+        }
+    }
+    (o, local, n)
+}
+
+pub fn replay(path: &str) -> i32 {
+    let s = std::fs::read_to_string(path).expect("MACHINERY: cannot read replay file");
+    let v: serde_json::Value = serde_json::from_str(&s).expect("MACHINERY: replay JSON");
+    let r = if v.get("replay").is_some() { &v["replay"] } else { &v };
+    let cell = all_cells()[r["cell_index"].as_u64().unwrap() as usize];
+    let p = crate::c01::params_from_json(&r["params"]);
+    let (o, bad, n) = run_task(&cell, &p);
+    println!("replay C11: {} packet_size={} tos={} pattern={} initial_sequence={}: {n} datagrams checked, result {:?}", cell.name(), p.packet_size, p.tos, p.pattern, p.initial_sequence, o.result);
+    if let Some(sr) = o.world.sent.first() {
+        println!("first datagram: {}", sr.wire.iter().map(|b| format!("{b:02x}")).collect::<String>());
+    }
+    for (k, d) in bad.iter().take(10) {
+        println!("DISCREPANCY {k}: {d}");
+    }
+    if bad.is_empty() {
+        println!("replay: property held");
+        0
+    } else {
+        println!("VIOLATION property=C11 replay={path}");
+        1
+    }
+}
+
 pub fn run(args: &Args) -> i32 {
+    if let Some(path) = &args.replay {
+        return replay(path);
+    }
     let tier = args.tier;
     let mut rep = Report::new("C11", tier, "exploration");
     let mut tasks: Vec<Task> = vec![];
@@ -263,44 +334,7 @@ pub fn run(args: &Args) -> i32 {
         let (cell, p) = (&t.cell, &t.p);
         let min = if cell.v6 { 48u16 } else { 28 };
         let illegal = cell.proto != Proto::Tcp && !(min..=1024).contains(&p.packet_size) || p.packet_size > 1024;
-        let topo = drive::topo_linear(cell, 1, Target::Silent);
-        let net = drive::net_cfg(cell, p, topo, Menu::default());
-        let o = drive::run_trace(cell, p, net, Chooser::new(&[], 0));
-        let mut local: Vec<(String, String)> = vec![];
-        let mut n = 0u64;
-        if let Some(pn) = &o.panic {
-            local.push((pn.key(), format!("{} at {}:{}", pn.message, pn.file, pn.line)));
-        } else if illegal {
-            match &o.result {
-                Err(e) if e.contains("InvalidPacketSize") => {}
-                other => local.push(("illegal-size-not-refused".into(), format!("packet size {} gave {other:?}", p.packet_size))),
-            }
-            if !o.world.sent.is_empty() {
-                local.push(("illegal-size-sent".into(), format!("packet size {}: {} datagrams were sent", p.packet_size, o.world.sent.len())));
-            }
-            n += 1;
-        } else {
-            if let Err(e) = &o.result {
-                local.push(("run-error".into(), e.clone()));
-            }
-            for (r, publ) in o.world.publishes.iter().enumerate() {
-                let sent: Vec<&SentRec> = o.world.sent.iter().filter(|s| s.round == r).collect();
-                if sent.len() != publ.probes.len() {
-                    local.push(("slot-count".into(), format!("round {r}: {} datagrams, {} slots", sent.len(), publ.probes.len())));
-                    continue;
-                }
-                for (s, slot) in sent.iter().zip(&publ.probes) {
-                    n += 1;
-                    match probe_of(slot) {
-                        Some(probe) => local.extend(check_datagram(cell, p, s, probe, r)),
-                        None => local.push(("slot-not-awaited".into(), format!("{slot:?}"))),
-                    }
-                }
-            }
-            if o.world.publishes.len() != p.rounds {
-                local.push(("round-count".into(), format!("{}", o.world.publishes.len())));
-            }
-        }
+        let (o, local, n) = run_task(cell, p);
         let mut tt = totals.lock().unwrap();
         tt.0 += n;
         tt.1 += 1;
